@@ -155,7 +155,12 @@ func init() {
 				return Tuple{s.Args[0], Iface{}}
 			}
 		}
+		if _, isJWS := ex.carrierOf(s); isJWS {
+			// a compact JWS contains '.', which is outside the base64url alphabet DecryptAES decodes first
+			return Tuple{StrLit(""), errorIface(ex, "aes.decrypt")}
+		}
 		if ex.Branch(UF("aes.ok", SBool, s, key)) {
+			// (fact: a string that decrypts contains no ".": not asserted, seq.contains is too costly for the solver)
 			return Tuple{UF("aes.dec", SSeq, s, key), Iface{}}
 		}
 		return Tuple{StrLit(""), errorIface(ex, "aes.decrypt")}
